@@ -69,7 +69,7 @@ def main(tier):
             sig = dict(clause=clause, k=m["scen"]["k"], fabric=m["scen"]["fab"], regime=m["scen"]["regime"])
             chk.violation(sig, f"{clause} beyond twice the accumulated budget at step {m['step']} (N={rj['n']}): {m['scen']}", dict(meta=m, event=events[rj["id"]]))
     chk.sample(dict(kind="scenario", scen=scens[0]))
-    chk.sample(dict(kind="event", event=next(e for e in events if e["ev"] == "Step")))
+    chk.sample(dict(kind="event", event=next((e for e in events if e["ev"] == "Step"), dict(note="no step was recorded: every paired run raised"))))
     rj, _ = pairs.judge([dict(id=0, ev="Start"), dict(id=1, ev="Step", rel="rate-scaling", dstrain_e6=200000, dA_e9=10, df_e9=90000000, dG_e9=10),
                          dict(id=2, ev="Step", rel="rate-scaling", dstrain_e6=200000, dA_e9=10, df_e9=10, dG_e9=13000000)])
     got = {r["id"]: r["clauses"] for r in rj}
